@@ -172,6 +172,14 @@ def gen(tier, rng, boost=1):
                     if u < 0x10000:
                         ops.append(f"num.bool 16 {units('16', units_)}")
                     ops.append(f"num.bool {rng.choice(['32', 'w'])} {units('32', units_)}")
+    for word in ("true", "false", "TRUE", "False"):
+        for pos in range(len(word)):
+            for hi in (0x100, 0x400, 0x2000, 0x10100):
+                us = [ord(c) for c in word]
+                us[pos] = hi + (us[pos] & 0xFF)
+                if us[pos] < 0x10000:
+                    ops.append(f"num.bool 16 {units('16', us)}")
+                ops.append(f"num.bool {rng.choice(['32', 'w'])} {units('32', us)}")
     # overlong literals (beyond any fixed-size scratch buffer: 63..70, 130, 400 characters) in all four widths
     for n in (62, 63, 64, 65, 66, 70, 130, 400):
         long_cases = ["0" * n + "7", "1" + "0" * n, "0" * (n - 5) + "65536", "0" * (n - 3) + "255", "7" + "0" * (n // 2) + "." + "5" * (n // 2),
